@@ -12,9 +12,10 @@ type HSpec struct {
 }
 
 type Check struct {
-	ID          string
-	Harnesses   []HSpec
-	Assumptions []string
+	ID           string
+	Harnesses    []HSpec
+	Assumptions  []string
+	ReportPanics bool // C07: panic paths of the harnesses are this check's violations
 }
 
 var registry = map[string]*Check{}
@@ -30,6 +31,35 @@ func cfgs(name string, vals ...int64) []map[string]int64 {
 var nia = []gosym.BackendSpec{gosym.Z3New, gosym.CVC5, gosym.Z3Old}
 
 const swapPkg = "coreV2/state/swap"
+const txPkg = "coreV2/transaction"
+
+func cfg(kv ...interface{}) map[string]int64 {
+	m := map[string]int64{}
+	for i := 0; i+1 < len(kv); i += 2 {
+		m[kv[i].(string)] = int64(kv[i+1].(int))
+	}
+	return m
+}
+
+var txAssumptions = append([]string{
+	"pre-state = arbitrary non-negative ledger over the harness universe (accounts A,B,zero; base coin, bancor coin 1, token 2; optional pools) in which every custom coin's volume equals the sum of its holdings, volume <= max supply, bancor reserve >= minimum: the representation invariant AppState.Verify demands of a genesis",
+	"balances are strictly positive except where a config makes one zeroable (a zero balance is a different account shape)",
+	"signature recovery abstracted: signer identity is a harness input (the signature gate itself is C23's subject); transaction hash opaque",
+	"bancor formulas are uninterpreted functions under the contract result>=0, sale return<=reserve, zero->zero, sell-all=reserve (C12 establishes it for formula.go modulo math.Pow)",
+	"rlp struct layer as field box (faithful and injective on exported fields)",
+}, commonAssumptions...)
+
+// sendConfigs: gas coin / sent coin / pool configurations of the Send harness.
+var sendQuick = []map[string]int64{
+	cfg("gasCoin", 0, "coin", 0),
+	cfg("gasCoin", 0, "coin", 1, "zeroable", 0, "zeroableOn", 1),
+	cfg("gasCoin", 1, "coin", 1),
+	cfg("gasCoin", 1, "coin", 0, "toSelf", 1),
+}
+var sendPool = []map[string]int64{
+	cfg("gasCoin", 1, "coin", 0, "pool10", 1),
+	cfg("gasCoin", 2, "coin", 1, "pool20", 1),
+}
 
 var commonAssumptions = []string{
 	"single goroutine: sync primitives are no-ops (C25 is not claimed)",
@@ -38,7 +68,25 @@ var commonAssumptions = []string{
 	"fmt/log/strconv formatting has no effect on consensus state",
 }
 
+func txCheck(id string, quick, thorough []HSpec, extra ...string) {
+	var hs []HSpec
+	for _, h := range quick {
+		h.Tier = "quick"
+		hs = append(hs, h)
+	}
+	for _, h := range thorough {
+		h.Tier = "thorough"
+		hs = append(hs, h)
+	}
+	registry[id] = &Check{ID: id, Harnesses: hs, Assumptions: append(extra, txAssumptions...), ReportPanics: id == "C07"}
+}
+
 func init() {
+	send := HSpec{Pkg: txPkg, Func: "VerifHarness_Send_Deliver", Configs: sendQuick, Bounds: "one CheckTx+DeliverTx of Send; every amount, nonce, gas price, chain id symbolic (unbounded integers / full machine width)"}
+	sendP := HSpec{Pkg: txPkg, Func: "VerifHarness_Send_Deliver", Configs: sendPool, Opts: gosym.HarnessOpts{MaxPaths: 1500}, Bounds: "as above with the commission paid through a swap pool; path bound 1500"}
+	for _, id := range []string{"C01", "C02", "C03", "C04", "C05", "C06", "C07", "C27"} {
+		txCheck(id, []HSpec{send}, []HSpec{sendP})
+	}
 	registry["C13"] = &Check{ID: "C13", Assumptions: append([]string{
 		"pre-state of a pool: both reserves > 0 (re-established by every harness as a post-condition), LP supply > minimum liquidity",
 		"big.Int.Sqrt by contract r*r <= x < (r+1)^2",
